@@ -101,7 +101,7 @@ class DifferConfig:
             # This node may be a child of one of the registered keys.  That
             # registered key's node will match this node's parent.
             for eval_nc, eval_key in self.keys.items():
-                if node_coord.parent == eval_nc.node:
+                if node_coord.parent is eval_nc.node:
                     diff_key = eval_key
                     break
 
@@ -228,8 +228,8 @@ class DifferConfig:
             return ""
 
         for rule_coord, rule_config in section.items():
-            if rule_coord.node == node_coord.node \
-                    and rule_coord.parent == node_coord.parent \
+            if rule_coord.node is node_coord.node \
+                    and rule_coord.parent is node_coord.parent \
                     and rule_coord.parentref == node_coord.parentref:
                 return str(rule_config)
 
